@@ -205,6 +205,7 @@ impl<T> RcInner<T> {
                     return false;
                 }
                 let add = if old.strong() == 0 { 2 } else { 1 };
+                vpoint!(State, self as *const Self);
                 match self.state.compare_exchange(
                     old.as_raw(),
                     old.add_strong(add).as_raw(),
